@@ -1002,7 +1002,13 @@ func (e *Engine) decodeTo(ctx decCtx, n *Node, dst PtrV, t types.Type) Iface {
 	// special cbor types
 	switch {
 	case namedIs(t, cborPath, "RawMessage"):
-		e.store(dst, e.bytesFromRope(Rope{SegItem{n}}))
+		// RawMessage.UnmarshalCBOR: *m = append((*m)[0:0], data...), i.e. existing storage is reused
+		nb := e.bytesFromRope(Rope{SegItem{n}})
+		if cur, ok := e.load(dst).(BytesV); ok && cur.obj != nil {
+			e.store(dst, e.appendOp(BytesV{obj: cur.obj, off: cur.off, n: e.c64(0), cap: cur.cap}, nb))
+			return Iface{}
+		}
+		e.store(dst, nb)
 		return Iface{}
 	case namedIs(t, cborPath, "Tag"), namedIs(t, "time", "Time"), isBigInt(t):
 		e.unsupported("decode into " + t.String())
